@@ -64,7 +64,7 @@ PROPS["C08"] = {
     "lean_modules": ["MithrilModel.Properties.C08"],
     "theorems": [
         "C08.C08_mono_draw", "C08.C08_phi_one", "C08.phi_one_bits", "C08.C08_zero_stake", "C08.C08_true_correct",
-        "C08.C08_false_correct", "C08.C08_exact", "C08.C08_inexact_counterexample",
+        "C08.C08_false_correct", "C08.C08_exact", "C08.C08_mono_stake_early", "C08.exponent_mono_stake", "C08.C08_inexact_counterexample",
     ],
     "level_text": "Monotonicity in the draw, zero-stake loss, phi_f = 1 win and 'a win is never wrong' are unconditional Lean theorems "
                   "about an exact-rational transliteration of is_lottery_won/taylor_comparison; exactness (decision = comparison with "
@@ -83,7 +83,7 @@ PROPS["C08"] = {
     "trivial_tags": ["extreme"],
     "trusted_base": ["rustc/cargo; harness hcore/c08 (includes /repo's eligibility.rs by #[path])", "Mathlib v4.33 (Real.exp, Complex.exp_bound')"],
     "assumptions": ["f64::ln(1-phi_f) is taken as computed by the platform libm", "num-integer backend (default feature); the rug backend is not modelled"],
-    "goals_not_proved": ["C08_mono_stake (monotone in stake): checked by S on generated pairs only",
+    "goals_not_proved": ["C08_mono_stake in full (a 'lost' by FALL-THROUGH after 1000 undecided rounds at the larger stake is not excluded by C08_mono_stake_early; it lies inside the band): checked by S on generated pairs",
                          "exactness for 3/2 < x <= 2.65: judged against the 900-bit reference only"],
 }
 
